@@ -176,6 +176,7 @@ impl Out {
     /// stream identical) but nothing is written.
     pub fn begin(&mut self, drv: &str, extra: Obj) -> bool {
         self.scn += 1;
+        WD_SCN.store(self.scn, std::sync::atomic::Ordering::Relaxed);
         self.active = match self.only {
             Some(k) => k == self.scn,
             None => true,
@@ -204,4 +205,122 @@ impl Out {
         self.pw.flush().unwrap();
         self.w.flush().unwrap();
     }
+}
+
+
+// ------------------------------------------------------------------ watchdog
+// Every call into the crate under test goes through `cu`: it records which kind of call is running, so that a
+// call that never returns, or that aborts the process (stack overflow, allocation failure), is attributed to
+// the code under test and not to the harness.
+use std::sync::atomic::{AtomicU64, AtomicUsize, Ordering};
+static WD_START: AtomicU64 = AtomicU64::new(0); // ms since process start, +1; 0 = no call running
+static WD_CLASS: AtomicUsize = AtomicUsize::new(0);
+pub static WD_SCN: AtomicUsize = AtomicUsize::new(0);
+static WD_DIED_PATH: std::sync::OnceLock<Vec<u8>> = std::sync::OnceLock::new(); // NUL-terminated
+static WD_T0: std::sync::OnceLock<std::time::Instant> = std::sync::OnceLock::new();
+pub const WD_CLASSES: [&str; 12] =
+    ["decap", "peek", "provision", "take", "encap", "encap_frag", "preview", "hdr", "extnew", "crc", "utils", "memops"];
+pub const WD_LIMIT_MS: u64 = 30_000;
+
+fn wd_now() -> u64 {
+    WD_T0.get_or_init(std::time::Instant::now).elapsed().as_millis() as u64
+}
+
+pub fn cu<F: FnOnce() -> R + std::panic::UnwindSafe, R>(class: &'static str, f: F) -> std::thread::Result<R> {
+    let ci = WD_CLASSES.iter().position(|c| *c == class).unwrap_or(0);
+    WD_CLASS.store(ci, Ordering::Relaxed);
+    WD_START.store(wd_now() + 1, Ordering::SeqCst);
+    let r = std::panic::catch_unwind(f);
+    WD_START.store(0, Ordering::SeqCst);
+    r
+}
+
+extern "C" {
+    fn signal(signum: i32, handler: usize) -> usize;
+    fn open(path: *const u8, flags: i32, mode: u32) -> i32;
+    fn write(fd: i32, buf: *const u8, n: usize) -> isize;
+    fn _exit(code: i32) -> !;
+}
+
+fn put_num(buf: &mut [u8], mut at: usize, mut v: usize) -> usize {
+    let mut tmp = [0u8; 20];
+    let mut n = 0;
+    loop {
+        tmp[n] = b'0' + (v % 10) as u8;
+        v /= 10;
+        n += 1;
+        if v == 0 {
+            break;
+        }
+    }
+    while n > 0 {
+        n -= 1;
+        buf[at] = tmp[n];
+        at += 1;
+    }
+    at
+}
+
+/// SIGABRT (Rust aborts on stack overflow and on allocation failure): say where we were, exit with status 4.
+/// Only async-signal-safe calls.
+extern "C" fn on_abort(_sig: i32) {
+    let mut buf = [0u8; 96];
+    let mut at = 0;
+    for b in b"{\"in_call\":" {
+        buf[at] = *b;
+        at += 1;
+    }
+    at = put_num(&mut buf, at, (WD_START.load(Ordering::SeqCst) != 0) as usize);
+    for b in b",\"fn_idx\":" {
+        buf[at] = *b;
+        at += 1;
+    }
+    at = put_num(&mut buf, at, WD_CLASS.load(Ordering::Relaxed));
+    for b in b",\"scn\":" {
+        buf[at] = *b;
+        at += 1;
+    }
+    at = put_num(&mut buf, at, WD_SCN.load(Ordering::Relaxed));
+    buf[at] = b'}';
+    at += 1;
+    unsafe {
+        if let Some(p) = WD_DIED_PATH.get() {
+            let fd = open(p.as_ptr(), 577, 0o644); // O_WRONLY | O_CREAT | O_TRUNC
+            if fd >= 0 {
+                write(fd, buf.as_ptr(), at);
+            }
+        }
+        _exit(4)
+    }
+}
+
+/// started once by main: a call into the crate that runs longer than WD_LIMIT_MS is reported in `<trace>.hang`
+/// (exit status 3); an abort is reported in `<trace>.died` (exit status 4)
+pub fn start_watchdog(trace_path: &str) {
+    let _ = wd_now();
+    let mut p = format!("{}.died", trace_path).into_bytes();
+    let _ = std::fs::remove_file(format!("{}.died", trace_path));
+    p.push(0);
+    let _ = WD_DIED_PATH.set(p);
+    unsafe {
+        signal(6, on_abort as usize); // SIGABRT
+    }
+    let hang = format!("{}.hang", trace_path);
+    let _ = std::fs::remove_file(&hang);
+    std::thread::spawn(move || loop {
+        std::thread::sleep(std::time::Duration::from_millis(500));
+        let st = WD_START.load(Ordering::SeqCst);
+        if st != 0 && wd_now() + 1 > st + WD_LIMIT_MS {
+            let _ = std::fs::write(
+                &hang,
+                format!(
+                    "{{\"fn\":\"{}\",\"scn\":{},\"ms\":{}}}",
+                    WD_CLASSES[WD_CLASS.load(Ordering::Relaxed)],
+                    WD_SCN.load(Ordering::Relaxed),
+                    wd_now() + 1 - st
+                ),
+            );
+            std::process::exit(3);
+        }
+    });
 }
